@@ -809,7 +809,8 @@ func trueSizeScenarios(capacity int) []hx.Scenario {
 func scenarios(t *testing.T) []hx.Scenario {
 	switch c := probeCap(); c {
 	case 2:
-		return scaledScenarios()
+		// the cheap churn family first: a part that runs out of budget skips the tail
+		return append(churnScenarios(), scaledScenarios()...)
 	case 50:
 		return trueSizeScenarios(c)
 	default:
